@@ -158,3 +158,45 @@ def check_lookups(t, snap=None, what="result"):
                                 (what, i, axis, got, want))
     if not cells_first:
         cells()
+
+
+def check_live_iteration(t, snap=None, what="result"):
+    """A walk over one axis that is still in progress while the same table
+    answers other read-only questions (a vector of the other axis, a
+    comparison, a non-zero count) yields every ID with its own vector, like
+    a walk that is left alone.  Raises Violation."""
+    from .core import Violation
+    snap = snap or snapshot(t)
+    if not snap["obs"] or not snap["samp"]:
+        return
+    rows = snap["rows"]
+    twin = t.copy()
+    for axis, key, okey in (("sample", "samp", "obs"),
+                            ("observation", "obs", "samp")):
+        other = "observation" if axis == "sample" else "sample"
+        for dense in (True, False):
+            k = 0
+            for vals, id_, md in t.iter(axis=axis, dense=dense):
+                v = vals if dense else np.asarray(vals.toarray()).ravel()
+                want = [r[k] for r in rows] if axis == "sample" else rows[k]
+                if str(id_) != snap[key][k] or np.asarray(v).tolist() != want:
+                    raise Violation(
+                        "live-iteration", "%s: iter(axis=%r, dense=%r) step "
+                        "%d yields %r: %r while the table answers other "
+                        "reads; that position holds %r: %r" %
+                        (what, axis, dense, k, str(id_),
+                         np.asarray(v).tolist(), snap[key][k], want))
+                # reads between two steps of the walk
+                q = k % 3
+                if q == 0:
+                    t.data(snap[okey][k % len(snap[okey])], axis=other)
+                elif q == 1:
+                    t == twin
+                else:
+                    for _ in t.iter(axis=other):
+                        break
+                k += 1
+            if k != len(snap[key]):
+                raise Violation("live-iteration", "%s: iter(axis=%r) yielded "
+                                "%d of %d vectors" % (what, axis, k,
+                                                      len(snap[key])))
